@@ -475,6 +475,8 @@ class Tracer:
                 self.attempts.append(os.fspath(a[0]))
             elif name == "symlink":
                 self.attempts.append(os.fspath(a[1]))
+            elif name == "mkdir":
+                self.attempts.append(("mkdir", os.fspath(a[0])))
             r = fn(*a, **kw)
             self.ops += 1
             return r
@@ -629,6 +631,8 @@ def one_view(signac, _make_path_function, root, pdir, live, step, desc, si):
             if not q.startswith(os.path.join(root, "a") + os.sep):
                 return None
 
+    cand_keys = [os.path.normpath(os.path.join(j["pf"][1], "job")) for j in jrecs if j["pf"][0] == "Ok"]
+
     def call(pref):
         p = signac.get_project(pdir)
         with Tracer(root) as tr:
@@ -638,7 +642,16 @@ def one_view(signac, _make_path_function, root, pdir, live, step, desc, si):
             except Exception as e:   # noqa: BLE001
                 res = ("Err", exn_class(e))
         base = pref + os.sep
-        hint = [a[len(base):] if a.startswith(base) else a for a in tr.attempts]
+        hint = []
+        for a in tr.attempts:
+            if isinstance(a, tuple):
+                # a directory made for some link: tie-break hint = the wanted keys below it (a failing mkdir is the
+                # only trace of which link was being made); the model only uses hint entries that are keys
+                q = a[1][len(base):] if a[1].startswith(base) else None
+                if q:
+                    hint.extend(k for k in cand_keys if k.startswith(q + os.sep) and k not in hint)
+            else:
+                hint.append(a[len(base):] if a.startswith(base) else a)
         escaped[0] = escaped[0] or tr.escaped
         return res, hint, tr.ops
 
